@@ -57,14 +57,14 @@ PROPS = {
     'C07': _p(['end', 'end', 'mixed', 'collection'], ['C07.terminal', 'C07.terminal-changed', 'C07.never-completed', 'C07.complete',
                                                       'C07.content', 'C07.record', 'C07.roundtrip', 'C07.flag'], RULE_STEP, 4000, 300000,
               {'roundtrip': True, 'accessors': False, 'message': False}),
-    'C08': _p(['classify'] * 15 + ['trunc'], ['C08.class', 'C08.config'], RULE_CLASSIFY, 4000, 300000, _STEP),
+    'C08': _p(['classify'] * 31 + ['trunc'], ['C08.class', 'C08.config'], RULE_CLASSIFY, 4000, 300000, _STEP),
     'C09': _p(['collection'] * 14 + ['bigbatch'], ['C09.fold', 'C09.strict', 'C09.nonstrict'], RULE_BATCH, 3000, 200000, _STEP),
     'C10': _p(['collection'] * 14 + ['bigbatch'], ['C10.order', 'C10.perm', 'C10.sort'], RULE_BATCH, 3000, 200000, _STEP),
     'C11': _p(['collection'], ['C11.accept', 'C11.after'], RULE_BATCH, 3000, 200000, _STEP,
               variants=[{'flags': []}, {'flags': ['-O']}]),
     'C13': _p(['alias'], ['C13.msg-mutated', 'C13.reuse', 'C13.shared', 'C13.shared-edit', 'C13.history'], RULE_STEP, 3000, 200000,
               {'roundtrip': False, 'accessors': False, 'message': True, 'message_after': False}),
-    'C14': _p(['mixed', 'meta', 'end', 'story'], ['C14.roundtrip', 'C14.envelope', 'C14.restart-equiv'], RULE_STEP, 3000, 200000,
+    'C14': _p(['mixed', 'meta', 'end', 'story'], ['C14.roundtrip', 'C14.envelope', 'C14.restart-equiv'], RULE_STEP, 2000, 200000,
               {'roundtrip': True, 'accessors': False, 'message': False}, dual_restart=True),
     'C15': _p(['timing', 'mixed', 'script', 'item'], ['C15.accessor'], RULE_STATE, 3000, 200000,
               {'roundtrip': False, 'accessors': True, 'message': False}),
